@@ -47,6 +47,19 @@ def export_mixtures(path, rng, n_synth=10):
     return len(mixes)
 
 
+def gam_raw(T, m, x, model):
+    """the object the library returns, untouched"""
+    return calculate_activity_coefficients(temperature=T, mixture=m, composition=pv.Composition(p=x, type="molar"), calculation_type=model)
+
+
+def pure_table(T, m, model, eps):
+    """gammas towards both pure ends, tabulated first and read afterwards"""
+    hi = [gam_raw(T, m, 1.0 - e, model) for e in eps]
+    lo = [gam_raw(T, m, e, model) for e in eps]
+    one, zero = gam_raw(T, m, 1.0, model), gam_raw(T, m, 0.0, model)
+    return {"g_hi": [F(g[0]) for g in hi], "g_lo": [F(g[1]) for g in lo], "g_one": F(one[0]), "g_zero": F(zero[1])}
+
+
 def gam(T, m, x, model):
     g = calculate_activity_coefficients(temperature=T, mixture=m, composition=pv.Composition(p=x, type="molar"),
                                         calculation_type=model)
@@ -73,6 +86,36 @@ def record(tw, rng, n, stats, probe_cap=60):
                 del tr[mark:]
                 stats["skipped"] = stats.get("skipped", 0) + 1
                 stats.setdefault("skipped_excs", {})[type(e).__name__] = stats.setdefault("skipped_excs", {}).get(type(e).__name__, 0) + 1
+        if not raoult and m not in gen.builtin_mixtures() and m.nrtl_params is not None and rng.random() < 0.3:
+            # the SAME mixture object after its parameters were changed (re-assigned, or edited in place): the answers follow what the
+            # object holds now
+            q = m.nrtl_params
+            zeroed = rng.random() < 0.35
+            if zeroed:
+                # the interaction parameters are switched off on the object (a what-if study): Raoult's law from now on
+                if rng.random() < 0.5:
+                    q.g12 = q.g21 = 0
+                    q.a12 = q.a21 = 0
+                else:
+                    m.nrtl_params = NRTLParameters(g12=0, g21=0, alpha12=q.alpha12, alpha21=q.alpha21)
+            elif rng.random() < 0.5:
+                m.nrtl_params = NRTLParameters(g12=q.g12 * rng.uniform(0.3, 2.0), g21=q.g21 * rng.uniform(0.3, 2.0), alpha12=rng.uniform(0.1, 0.6),
+                                               alpha21=q.alpha21, a12=q.a12, a21=q.a21)
+            else:
+                q.g12, q.g21 = q.g12 * rng.uniform(0.3, 2.0), rng.choice([0.0, q.g21 * rng.uniform(0.3, 2.0)])
+                q.a12 = rng.choice([0.0, q.a12 + rng.uniform(-1.0, 1.0)])
+            if m.uniquac_params is not None and rng.random() < 0.5:
+                m.uniquac_params.beta_12 = m.uniquac_params.beta_12 * rng.uniform(0.5, 1.5)
+            tr2 = tw.new()
+            tr2.append(dict(ev="Mix", **mix_desc(m, zeroed)))
+            for model in ("NRTL", "UNIQUAC"):
+                mark = len(tr2)
+                try:
+                    _one_model(tw, rng, m, tr2, model, zeroed, stats, state)
+                except Exception as e:  # noqa: BLE001
+                    del tr2[mark:]
+                    stats["skipped"] = stats.get("skipped", 0) + 1
+                    stats.setdefault("skipped_excs", {})[type(e).__name__] = stats.setdefault("skipped_excs", {}).get(type(e).__name__, 0) + 1
 
 
 def _one_model(tw, rng, m, tr, model, raoult, stats, state):
@@ -96,7 +139,9 @@ def _one_model(tw, rng, m, tr, model, raoult, stats, state):
             pass
     h = min(2e-4, x / 50, (1 - x) / 50)
     pts = [x - 2 * h, x - h, x, x + h, x + 2 * h]
-    gs = [gam(T, m, p, model) for p in pts]
+    # the caller tabulates: all five results are obtained first and read afterwards (each call returns its own answer)
+    raw = [gam_raw(T, m, p, model) for p in pts]
+    gs = [[F(g[0]), F(g[1])] for g in raw]
     probe = False
     if model == "UNIQUAC" and probes < probe_cap:
         probe, probes = True, probes + 1
@@ -104,9 +149,7 @@ def _one_model(tw, rng, m, tr, model, raoult, stats, state):
                "g1": [g[0] for g in gs], "g2": [g[1] for g in gs], "probe": probe})
     eps = [1e-4, 1e-6, 1e-8]
     tr.append({"ev": "Pure", "model": model, "T": F(T), "eps": eps,
-               "g_hi": [gam(T, m, 1.0 - e, model)[0] for e in eps],
-               "g_lo": [gam(T, m, e, model)[1] for e in eps],
-               "g_one": gam(T, m, 1.0, model)[0], "g_zero": gam(T, m, 0.0, model)[1]})
+               **pure_table(T, m, model, eps)})
     # partial pressures from a mass-fraction and from the equivalent mole-fraction input
     w = gen.fraction(rng)
     cw = pv.Composition(p=w, type="weight")
